@@ -353,13 +353,65 @@ def objects_strategy():
         _class_refs(draw, r)
         how = draw(st.sampled_from(['toxml', 'str', 'indent2', 'indent0',
                                     'cdata', 'twice', 'twice']))
+        if kind in ('inst', 'class', 'prop', 'param_value') and \
+                draw(st.integers(0, 5)) == 0:
+            # after the object is built, a value of another shape is assigned
+            # through the documented value setter of one of its properties /
+            # of the parameter (which index, which shape)
+            return (kind, r, how, (draw(st.integers(0, 5)),
+                                   draw(st.sampled_from(MISMATCH_SHAPES))))
         return (kind, r, how)
     return strat()
 
 
+MISMATCH_SHAPES = ['list-on-scalar', 'scalar-on-array', 'nested-list',
+                   'path-on-nonreference', 'instance-on-plain-string',
+                   'class-on-number', 'tuple', 'dict', 'bytes']
+
+
+def _assign_mismatch(obj, index, shape):
+    """
+    Assign a value that does not fit the kind of the element through its
+    value setter; returns a label, or None if there is no such element or
+    the setter refused (then the object is unchanged).
+    """
+    if isinstance(obj, (pywbem.CIMProperty, pywbem.CIMParameter)):
+        targets = [obj]
+    else:
+        targets = list(getattr(obj, 'properties', {}).values())
+    if not targets:
+        return None
+    t = targets[index % len(targets)]
+    value = {
+        'list-on-scalar': ['a', 'b'],
+        'scalar-on-array': 'a',
+        'nested-list': [['a'], ['b']],
+        'path-on-nonreference': CIMInstanceName('C', {'k': 'v'}),
+        'instance-on-plain-string': pywbem.CIMInstance('C'),
+        'class-on-number': pywbem.CIMClass('C'),
+        'tuple': ('a', 'b'),
+        'dict': {'a': 'b'},
+        'bytes': b'ab',
+    }[shape]
+    if shape == 'list-on-scalar' and t.is_array:
+        return None
+    if shape == 'scalar-on-array' and not t.is_array:
+        return None
+    try:
+        t.value = value
+    except (TypeError, ValueError):
+        return 'refused-by-setter'
+    return 'assigned'
+
+
 def objects_oracle(ctx, ex):
-    kind, recipe, how = ex
+    kind, recipe, how = ex[:3]
     obj = S.build(recipe)
+    mismatch = None
+    if len(ex) > 3:
+        mismatch = _assign_mismatch(obj, ex[3][0], ex[3][1])
+        if how == 'twice':
+            how = 'toxml'       # the second tree would be built unmodified
     kw = {'as_value': True} if kind == 'param_value' else {}
     old = _cim_xml._CDATA_ESCAPING
     try:
@@ -392,7 +444,8 @@ def objects_oracle(ctx, ex):
                 xml = obj.tocimxmlstr(indent='', **kw)
         finally:
             _cim_xml._CDATA_ESCAPING = old
-    except (ValueError, TypeError, UnicodeError) as exc:
+    except (ValueError, TypeError, UnicodeError, AssertionError) as exc:
+        # "fails locally with an exception": the statement names no type
         ctx.case(nontrivial=False,
                  classes=('kind:' + kind, 'local-failure:' +
                           type(exc).__name__))
@@ -407,7 +460,9 @@ def objects_oracle(ctx, ex):
     bad = validate_cimxml(body)
     if bad is not None:
         ctx.fail('object:' + bad[0], '%s %s: %s' % (kind, how, bad[1]))
-    ctx.case(nontrivial=True, classes=('kind:' + kind, 'how:' + how))
+    ctx.case(nontrivial=True, classes=('kind:' + kind, 'how:' + how) + (
+        ('value-of-another-shape:%s:%s' % (ex[3][1], mismatch),)
+        if mismatch else ()))
 
 
 SUBCHECKS = [
